@@ -81,6 +81,8 @@ func runC19(c *Ctx) {
 			return mkID(3) + "_" + mkID(2) // invalid character
 		case 5:
 			return "_history"
+		case 6:
+			return Pick(c.rng, []string{".", "..", "...", "-", "a.", ".a", "1", "--", "a..b"}) // valid ids a path cleaner would mangle
 		}
 		return mkID(2 + c.rng.Intn(10))
 	}
@@ -234,6 +236,12 @@ func runC19(c *Ctx) {
 		ls, e1 := reference.LiteralInfoOf(strong)
 		lw, e2 := reference.LiteralInfoOf(weak)
 		c.Law(e1 == nil && e2 == nil && litOut(ls, nil, false) == litOut(lw, nil, false), "C19/strong-weak-info", "a typed reference and the untyped URI reference naming the same resource parse to equal information", s, fmt.Sprint(e1, e2))
+		// every constructor of a typed reference formats the same identity: Typed(type, id) is TypedFromIdentity without a version
+		if _, hasVersion := ident.VersionID(); !hasVersion {
+			tr, terr := reference.Typed(ident.Type(), ident.ID())
+			c.Observe("Typed "+s, true)
+			c.Law(terr == nil && proto.Equal(tr, strong), "C19/typed-constructor", "Typed(type, id) formats the reference TypedFromIdentity formats, for every valid id", s, fmt.Sprint(terr, " ", tr))
+		}
 		// the same literal under another service base URL: same type and identity, and its formatted form parses back to it
 		for _, nb := range []string{"http://other.example.org/r4", "https://h:8080/a/b", ""} {
 			for _, l := range []*reference.LiteralInfo{ls, lw} {
